@@ -157,7 +157,8 @@ impl Compiler {
     //@  ensures r is Err ==> forall|j: int| 0 <= j < old(self).upvalues@.len() ==> upvalue_pair(#[trigger] old(self).upvalues@[j]) != (index, is_local)
     //@  ensures r matches Err(e) ==> e is TooManyClosureVars
     //@  ensures final(self).scope_depth == old(self).scope_depth && final(self).kind == old(self).kind
-    //@  loop 0 invariant __k0 <= self.upvalues.len(), upvalue_count == self.upvalues.len(), *self == *old(self), old(self).wf()
+    //@  loop 0 invariant __k0 <= self.upvalues.len(), *self == *old(self), old(self).wf()
+    //@  loop 0 invariant if_before "let upvalue_count = self.upvalues.len();" upvalue_count == self.upvalues.len()
     //@  loop 0 invariant forall|j: int| 0 <= j < __k0 ==> upvalue_pair(#[trigger] self.upvalues[j]) != (index, is_local)
     //@  loop 0 decreases self.upvalues.len() - __k0
     //@end
